@@ -415,10 +415,12 @@ class FillRequest(object):
                 self._buffer_in.append(value)
                 return
             else:
-                # add output to the output buffer
-                self._buffer_out.extend(self.request())
-                # don't reset because need to know that fill was called
-                # self._n_count = 0
+                # move the results for the complete slice
+                # to the output buffer
+                self._buffer_out.extend(self._el_request())
+                if self._reset:
+                    self._el_reset()
+                self._n_count = 0
 
         self._el_fill(value)
         self._n_count += 1
@@ -429,6 +431,13 @@ class FillRequest(object):
         If input or output buffers were filled, all their contents
         are processed and yielded.
         """
+        # results stored in _buffer_out during fill are for preceding slices
+        if not self._buffer_input and self._buffer_out:
+            buffer_out = self._buffer_out
+            self._buffer_out = []
+            for val in buffer_out:
+                yield val
+
         # yield what was filled into the element
         if self._n_count >= self.bufsize:
             for val in self._el_request():
@@ -443,13 +452,12 @@ class FillRequest(object):
         # Buffers are always filled after the element,
         # therefore the order is correct.
         if not self._buffer_input:
-            # all results are in _buffer_out
-            for val in self._buffer_out:
-                yield val
-            if self._yield_on_remainder:
+            if self._yield_on_remainder and self._n_count:
                 for val in self._el_request():
                     yield val
-            # reset was already called when filling _buffer_out
+                if self._reset:
+                    self._el_reset()
+                self._n_count = 0
             return
         else:
             # fill the buffer from _buffer_in and yield
